@@ -1806,7 +1806,13 @@ impl SocketAddress for unix::net::SocketAddr {
     }
 
     unsafe fn init(storage: MaybeUninit<Self::Storage>, length: u32) -> Self {
-        debug_assert!(length as usize >= size_of::<libc::sa_family_t>());
+        if (length as usize) < size_of::<libc::sa_family_t>() {
+            // The kernel didn't write an address, not even the family, e.g.
+            // when receiving from a socket that isn't bound. That is an
+            // unnamed address.
+            // SAFETY: unnamed (zero length) address is valid.
+            return unix::net::SocketAddr::from_pathname("").unwrap();
+        }
         // NOTE: `storage.length` is not initialised.
         let storage = unsafe { ptr::addr_of!((*storage.as_ptr()).address) };
         let family = unsafe { ptr::addr_of!((*storage).sun_family).read() };
